@@ -41,6 +41,7 @@ for m in reversed(cs):
     s = s[:m.start()] + rep + s[m.end():]
 if cs:
     open("DESIGN.md", "w").write(s)
-subprocess.run(["git", "checkout", "--theirs", "evidence/%s.json" % pid])
+if pid != "NONE":
+    subprocess.run(["git", "checkout", "--theirs", "evidence/%s.json" % pid])
 subprocess.run(["python3-vt", "tools/gen_manifest.py"], check=True)
 subprocess.run(["python3", "tools/gen_design_tables.py"], check=True)
